@@ -86,7 +86,13 @@ class ExprMixin:
                 else:
                     raise Unsupported("starred symbolic list in display")
             else:
-                out.append(self.ev(e, st))
+                v = self.ev(e, st)
+                if isinstance(v, SOpt) and (v.inner is TNet or isinstance(v.inner, TObj)):
+                    # a list display of an Optional network/object: it must not be None here
+                    self.emit("safe.none", f"list@L{node.lineno}", st, z3.Not(v.isnone))
+                    self.assume_here(st, z3.Not(v.isnone))
+                    v = v.val
+                out.append(v)
         return out
 
     def ev_Set(self, node, st):
@@ -125,8 +131,11 @@ class ExprMixin:
             if isinstance(p, ast.Constant):
                 parts.append(p.value)
             else:
-                v = self.ev(p.value, st)
-                parts.append(self.format_value(v, p, st))
+                try:
+                    v = self.ev(p.value, st)
+                    parts.append(self.format_value(v, p, st))
+                except Unsupported:
+                    parts.append(Opaque("fmt"))   # message text only
         return self.concat_strs(parts)
 
     def format_value(self, v, p, st):
@@ -178,6 +187,8 @@ class ExprMixin:
                     dcls, m = mem
                     if m["kind"] == "property":
                         return self.call_accessor(base, cls, attr, "fget", [], st)
+                    if m["kind"] == "static":
+                        return FuncRef(f"{loader.all_classes()[dcls][0]}.{dcls}.{attr}")
                     return FuncRef(f"{loader.all_classes()[dcls][0]}.{dcls}.{attr}", bound_self=base)
             if self.field_type(cls, attr) is not None:
                 return self.heap_read(st, base, attr)
